@@ -450,21 +450,29 @@ theorem orient_z_rotation_right (eps rho : K) (newZ x : V3 K) (m : M4 K) (h : or
 theorem inverse_invariant (eps : K) (a : M4 K) (s : GJ K) (h : inverseGJ eps a = .ok s) :
     s.this = s.inv.compose a := Inverse.inverse_invariant eps a s h
 
-/-- `|det A| > eps ≥ 0` ⇒ `inverse` returns a two-sided inverse, whatever row exchanges are needed. -/
-theorem inverse_correct (eps : K) (a : M4 K) (heps : 0 ≤ eps) (hg : eps < absS a.det) :
+/-- Guard passed (`det² > ε²·Π|rowᵢ|²`, mat.rs:303-315) ⇒ `inverse` returns a two-sided inverse, whatever row
+exchanges are needed. -/
+theorem inverse_correct (eps : K) (a : M4 K) (hg : Inverse.GuardOk eps a) :
     ∃ b, inverse eps a = .ok b ∧ b.compose a = M4.identity ∧ a.compose b = M4.identity :=
-  Inverse.inverse_correct eps a heps hg
+  Inverse.inverse_correct eps a hg
 
-/-- `|det A| ≤ eps` ⇒ panic (debug profile), never a wrong matrix. -/
-theorem inverse_singular_panics (eps : K) (a : M4 K) (h : ¬ eps < absS a.det) :
+/-- Guard failed ⇒ panic (debug profile), never a wrong matrix. -/
+theorem inverse_singular_panics (eps : K) (a : M4 K) (h : ¬ Inverse.GuardOk eps a) :
     ∃ m, inverse eps a = .panic m := Inverse.inverse_singular_panics eps a h
 
-/-- D18 (candidate finding `inverse-det-guard-rejects-well-conditioned`): the guard compares the
-determinant with an *absolute* `f32::EPSILON`, so a perfectly conditioned uniform scaling by 0.004
-(determinant 6.4e-8) is refused although its inverse is exactly representable. -/
-theorem inverse_guard_rejects_small_scale :
-    ∃ m, inverse (1 / 8388608 : ℚ) (scale ⟨1 / 250, 1 / 250, 1 / 250⟩) = .panic m :=
-  Inverse.inverse_singular_panics _ _ (by decide +kernel)
+theorem inverse_ok_iff (eps : K) (a : M4 K) : (∃ b, inverse eps a = .ok b) ↔ Inverse.GuardOk eps a :=
+  Inverse.inverse_ok_iff eps a
+
+/-- D18 (`inverse-det-guard-rejects-well-conditioned`, fixed in /repo d46db54): with the scale-relative guard a
+uniform scaling by *any* non-zero factor is inverted; in particular the old witness `scale(0.004)`. -/
+theorem inverse_accepts_uniform_scale (eps s : K) (he : eps * eps < 1) (hs : s ≠ 0) :
+    ∃ b, inverse eps (scale ⟨s, s, s⟩) = .ok b ∧ b.compose (scale ⟨s, s, s⟩) = M4.identity ∧
+      (scale ⟨s, s, s⟩).compose b = M4.identity :=
+  Inverse.inverse_accepts_uniform_scale eps s he hs
+
+theorem inverse_accepts_small_scale_witness :
+    inverse (1 / 8388608 : ℚ) (scale ⟨1 / 250, 1 / 250, 1 / 250⟩) = .ok (scale ⟨250, 250, 250⟩) := by
+  decide +kernel
 
 end Orient
 
